@@ -104,6 +104,7 @@ pub fn run_search_flag(game: &Game, table: &mut TranspositionTable, cfg: &Search
     ctx.depth_limit = cfg.depth_monitor;
     ctx.watchdog = cfg.watchdog;
     ctx.tableless = cfg.tableless;
+    crate::bind::note_case_text(&format!("search of {} (limit {:?}, stop at poll {}, table-less {})", game.fen(), cfg.max_depth, cfg.stop_at, cfg.tableless));
     let before = game.verif_dump();
     let flag = AtomicBool::new(initial_flag);
     let (r, ctx) = in_seq(ctx, || guarded(|| get_best_move_until_stop(game, table, &flag, cfg.max_depth)));
